@@ -8,7 +8,7 @@ _H = ["sample/c08rules_test.go"]
 
 def _walk(name, cfg, budget):
     return dict(kind="walk", name=name, module="Rules", pkg="sample", test="TestVerifC08Rules", harness=_H,
-                cfg=cfg, budget=budget, maxwalk=4)
+                cfg=cfg, budget=budget, maxwalk=4, tlc_timeout={"quick": 900, "thorough": 1800})
 
 
 def _mode():
@@ -32,7 +32,8 @@ _THOROUGH = [_walk("single", "MC_Rules_single_big.cfg", 150),
              _walk("pair_trace", "MC_Rules_pair_trace_big.cfg", 200),
              _walk("pair_span", "MC_Rules_pair_span_big.cfg", 200),
              _walk("list", "MC_Rules_list_big.cfg", 150),
-             _walk("mix", "MC_Rules_mix_big.cfg", 150)]
+             _walk("mix", "MC_Rules_mix_big.cfg", 150),
+             _walk("downstream", "MC_Rules_ds_big.cfg", 150)]
 _PROB = [dict(kind="gotest", name="prob", pkg="sample", test="TestVerifC08Prob", harness=_H, budget={"quick": 30, "thorough": 120})]
 _STAGES = {"quick": _QUICK + _PROB, "thorough": _THOROUGH + _PROB, "replay": _QUICK + _THOROUGH + _PROB}[_mode() if _mode() in ("quick", "thorough", "replay") else "quick"]
 
@@ -40,9 +41,10 @@ PROP = dict(
     level="model_checking",
     technique="TLA+ spec Rules.tla (the documented rule semantics transcribed from rules_conditions.md / rules.md as operators over an abstract typed value domain) enumerated exhaustively by TLC; every (rule list, trace) vector is replayed into the real RulesBasedSampler obtained from the real config loader and SamplerFactory (function-vector replay, B3); statistical clause by a 6.5-sigma binomial band",
     design_ref="DESIGN.md §5 C08",
-    level_text="TLC enumerates every single condition (15 operators x 5 datatypes x typed condition values x typed span values incl. absent), every two-condition rule over two-span traces (Field/Fields, root. prefix, ?.NUM_DESCENDANTS, has-root-span, scope trace/span, with and without root span), every Fields list mixing a plain and a root.-prefixed name (both orders) over three-span traces with the field absent / matching / non-matching on each span independently (both scopes, root arriving first, in the middle or last) and every rule list of length <= 2 (drop / SampleRate / downstream sampler / default) within the bound, computes the documented outcome and checks FirstMatch / Decision / AbsentNeverMatches on the model; each vector is then built as a real rules file loaded by config.NewConfig, a real types.Trace with msgpack payloads, and the matched rule, keep/drop and rate returned by GetSampleRate must equal the model's outcome (also with the spans of the trace in the opposite arrival order). The known deviation (string-coerced matchers match an absent field read as \"<nil>\") is a named second successor per (operator, datatype); any other mismatch is a violation.",
-    level_note="Bounded-exhaustive over the abstract value domain (7-12 strings, 5 ints, 2 floats, booleans), not over all strings/numbers; combinations the documents leave open (untyped comparison across kinds, ordering of booleans, string form of integral floats, not-exists on root.-prefixed fields without root span, conversion of float-looking strings to int) are not enumerated; regular expressions are three fixed patterns; CheckNestedFields is off; the one-step graph is replayed by a linear driver in the harness with verifkit.Walk's acceptance rule (verifkit.Walk is quadratic on one-step graphs); 'probability 1/N' is a statistical band (gotest stage), keep/drop is compared exactly only for drop rules, rate 1 and the rate-1 downstream sampler.",
+    level_text="TLC enumerates every single condition (15 operators x 5 datatypes x typed condition values x typed span values incl. absent), every two-condition rule over two-span traces (Field/Fields, root. prefix, ?.NUM_DESCENDANTS, has-root-span, scope trace/span, with and without root span), every Fields list mixing a plain and a root.-prefixed name (both orders) over three-span traces with the field absent / matching / non-matching on each span independently (both scopes, root arriving first, in the middle or last) every rule list of length <= 2 (drop / SampleRate / downstream sampler / default) and every list of two or three rules that delegate to their OWN downstream sampler (deterministic with rates 1/2/3/6, dynamic, EMA dynamic, total / EMA / windowed throughput; FieldList [f] or [g]) or are plain Drop / SampleRate rules, independently unnamed or carrying the same Name, with the same scope and number of conditions, against trace IDs whose hash lies in each bucket that tells the deterministic rates apart - within the bound, computes the documented outcome and checks FirstMatch / Decision / Delegation (who decided, the deterministic threshold hash(traceID) <= MaxUint32/N and rate N of the MATCHED rule's sampler, the sample key made of the matched rule's own FieldList) / OwnSampler (non-interference: the answer does not change when another rule's downstream sampler or any rule's Name is replaced) / AbsentNeverMatches on the model; each vector is then built as a real rules file loaded by config.NewConfig, a real types.Trace with msgpack payloads, and the matched rule (as far as the reason tells: scope word, Name, kind of downstream sampler), who decided, keep/drop, rate and the set of values in the sample key returned by GetSampleRate must equal the model's outcome (also with the spans of the trace in the opposite arrival order). The known deviation (string-coerced matchers match an absent field read as \"<nil>\") is a named second successor per (operator, datatype); any other mismatch is a violation.",
+    level_note="Bounded-exhaustive over the abstract value domain (7-12 strings, 5 ints, 2 floats, booleans), not over all strings/numbers; combinations the documents leave open (untyped comparison across kinds, ordering of booleans, string form of integral floats, not-exists on root.-prefixed fields without root span, conversion of float-looking strings to int) are not enumerated; regular expressions are three fixed patterns; CheckNestedFields is off; the one-step graph is replayed by a linear driver in the harness with verifkit.Walk's acceptance rule (verifkit.Walk is quadratic on one-step graphs); 'probability 1/N' is a statistical band (gotest stage), keep/drop is compared exactly only for drop rules, rate 1, the rate-1 dynamic downstream sampler and deterministic downstream samplers (rates dividing 6, one trace ID per hash bucket of width 2^32/6: the threshold itself is C10's); for the EMA / throughput downstream kinds only who decided and the sample key are compared (their rate depends on traffic and wall-clock time), so two such rules differing only in their goal are not told apart; dynamic downstream samplers only with SampleRate 1; the rules metadata does not list DeterministicSampler as a downstream sampler, so rule lists that use one are loaded by the real loader with NoValidate (as `refinery --no-validate`), all others with validation; rule lists in which two rules that look the same in the reason (scope word, Name, kind) are compared differently (e.g. two unnamed plain rules, one Drop and one SampleRate 3) are not enumerated.",
     assumptions=["dynsampler-go with SampleRate 1 keeps every trace at rate 1", "Go's math/rand draws are independent and uniform",
+                 "the deterministic sampler hashes a trace ID as the first 4 bytes (big endian) of sha1(traceID + salt) (C10 checks this)",
                  "bounded abstract value domain"],
     stages=_STAGES,
 )
